@@ -100,6 +100,11 @@ func (c ValueCase) keyID() *keyid.KeyID {
 }
 
 func genString(t *rapid.T, label string) string {
+	if rapid.IntRange(0, 255).Draw(t, label+"Long")&0xfe == 0xa8 {
+		n := rapid.SampledFrom([]int{4096, 65535, 65536, 65537}).Draw(t, label+"Len")
+		unit := rapid.SampledFrom([]string{"a", "é", `"`, "<"}).Draw(t, label+"Unit")
+		return strings.Repeat(unit, n/len(unit))
+	}
 	switch rapid.IntRange(0, 9).Draw(t, label+"Kind") {
 	case 0:
 		return ""
@@ -152,6 +157,9 @@ func execValue(c ValueCase) (vh.Outcome, error) {
 		cl = "marshal-ok"
 	}
 	out.Classes = []string{cl, fmt.Sprintf("ver=%d", min(int(c.Version), 4))}
+	if len(c.TransID)+len(c.ReqUser)+len(c.ReqIP)+len(c.ReqHost)+len(strings.Join(c.Prins, "")) > 4000 {
+		out.Classes = append(out.Classes, "value>4KB")
+	}
 	if want && err != nil {
 		return out, vh.Errf("Marshal refused a supported, consistent KeyID %+v: %v", c, err)
 	}
@@ -327,7 +335,8 @@ func genText(t *rapid.T) TextCase {
 		}
 		ms = rapid.Permutation(ms).Draw(t, "order")
 		ws := rapid.SampledFrom([]string{"", " ", "\n\t"}).Draw(t, "ws")
-		return TextCase{Text: joinMembers(ms, ws), Kind: "valid", Want: &c}
+		pad := rapid.SampledFrom([][2]string{{"", ""}, {"", ""}, {" ", ""}, {"", "\n"}, {"\t\r\n", " "}}).Draw(t, "pad")
+		return TextCase{Text: pad[0] + joinMembers(ms, ws) + pad[1], Kind: "valid", Want: &c}
 	case kind <= 6: // single mutation of an encoder-shaped text
 		c := genConsistentValue(t)
 		ms := baseMembers(c)
@@ -483,6 +492,9 @@ func execText(c TextCase) (vh.Outcome, error) {
 	if c.Mutation != "" {
 		out.Classes = append(out.Classes, "mut="+strings.SplitN(c.Mutation, ":", 2)[0])
 	}
+	if len(c.Text) > 4000 {
+		out.Classes = append(out.Classes, "text>4KB")
+	}
 	accepted, err := checkText(c.Text)
 	if err != nil {
 		return out, err
@@ -515,7 +527,7 @@ func execText(c TextCase) (vh.Outcome, error) {
 func TestC05Text(t *testing.T) {
 	vh.Run(t, vh.Spec[TextCase]{
 		Property: "C05", Name: "TestC05Text",
-		Rule: "texts: 20% valid-by-construction (shuffled members, extra members, whitespace; must decode to the members' values), 50% encoder-shaped text with one required member deleted (also with its exact name still present as a string value, principal or nested key) / case-renamed / duplicated (same, conflicting, case variant) / retyped, 10% inconsistent-or-unsupported attribute sets, 10% other JSON values, 10% arbitrary bytes. Oracle on acceptance: version supported, all 11 exact required names among the top-level members (independent token walk), consistency rules, re-encodes to a fixed point; constructed-to-fail texts must be refused. Non-trivial: single-mutation texts; distinct by text hash.",
+		Rule: "texts: 20% valid-by-construction (shuffled members, extra members, whitespace inside and around the object; must decode to the members' values), 50% encoder-shaped text with one required member deleted (also with its exact name still present as a string value, principal or nested key) / case-renamed / duplicated (same, conflicting, case variant) / retyped, 10% inconsistent-or-unsupported attribute sets, 10% other JSON values, 10% arbitrary bytes. Oracle on acceptance: version supported, all 11 exact required names among the top-level members (independent token walk), consistency rules, re-encodes to a fixed point; constructed-to-fail texts must be refused. Non-trivial: single-mutation texts; distinct by text hash.",
 		Gen:  genText, Exec: execText,
 	})
 }
